@@ -177,6 +177,20 @@ public:
     List<Variant> content;
 
   public:
+    Element& operator=(const Element& other)
+    {
+      if(&other != this)
+      {
+        Element copy(other); // other may be stored inside this->content
+        line = copy.line;
+        column = copy.column;
+        type = copy.type;
+        attributes.swap(copy.attributes);
+        content.swap(copy.content);
+      }
+      return *this;
+    }
+
     void clear()
     {
       type.clear();
